@@ -100,6 +100,11 @@ class RecOs(symex.ShadowOs):
         self.events.append(('lstat', p))
         return Stat(self.stat_values[0], self.stat_values[1])
 
-    stat_values = (0.0, 0)
+    def stat(self, p):
+        # follows symbolic links: for a linked single-colour tile this is the shared file
+        self.events.append(('stat', p))
+        return Stat(self.target_stat_values[0], self.target_stat_values[1])
 
-    stat = lstat
+    stat_values = (0.0, 0)
+    target_stat_values = (0.0, 0)
+
